@@ -3,6 +3,7 @@
 package pfcpiface
 
 import (
+	"context"
 	"fmt"
 	"math/rand"
 	"net"
@@ -365,4 +366,38 @@ func R_C11_order() {
 			vStressFail(fmt.Sprintf("round %d: %s", round, msg))
 		}
 	}
+}
+
+// H_C11_seeds: the real NewPFCPConn for two associations created one after the
+// other: each association draws its SEIDs from its own stream - the generators
+// are seeded differently whenever the two are created at different instants
+// (and the clock never stands still between two reads). Under the engine the
+// seed handed to rand.NewSource is observed; natively the first draws of the
+// two generators are compared.
+func H_C11_seeds() {
+	e := vNewEnv(false)
+	node := &PFCPNode{ctx: context.Background(), pConnDone: make(chan string, 4), upf: e.u, metrics: e.m}
+	var seeds []int64
+	if vInEngine() {
+		vOverride("math/rand.NewSource", func(seed int64) rand.Source {
+			seeds = append(seeds, seed)
+			return &vRandSource{counter: true}
+		})
+		vOverride("github.com/libp2p/go-reuseport.Dial", func(network, laddr, raddr string) (net.Conn, error) {
+			return vNewConn(), nil
+		})
+		vSkipGo("(*github.com/omec-project/upf-epc/pfcpiface.PFCPConn).Serve")
+	}
+	c1 := node.NewPFCPConn("127.0.0.1:0", "127.0.0.1:18805", nil)
+	c2 := node.NewPFCPConn("127.0.0.1:0", "127.0.0.1:18806", nil)
+	vAssert("two-associations-created", c1 != nil && c2 != nil && c1 != c2)
+	if vInEngine() {
+		vAssert("associations-draw-their-SEIDs-from-different-streams", len(seeds) == 2 && seeds[0] != seeds[1])
+	} else {
+		a, b := c1.rng.Uint64(), c2.rng.Uint64()
+		vAssert("associations-draw-their-SEIDs-from-different-streams", a != b)
+		c1.Close()
+		c2.Close()
+	}
+	vCover("seeds")
 }
